@@ -31,13 +31,12 @@ pub fn exact(x: f64) -> i128 {
 
 /// Total of the day + time fields in ns (a day counting 24 h).
 pub fn time_total(v: &[f64; 10]) -> i128 {
-    exact(v[D]) * NS_DAY
-        + exact(v[H]) * NS_HOUR
-        + exact(v[MI]) * NS_MIN
-        + exact(v[S]) * NS_SEC
-        + exact(v[MS]) * 1_000_000
-        + exact(v[US]) * 1_000
-        + exact(v[NS])
+    // saturating: a total beyond i128 is far beyond every limit anyway
+    let mut t: i128 = 0;
+    for (i, unit) in [(D, NS_DAY), (H, NS_HOUR), (MI, NS_MIN), (S, NS_SEC), (MS, 1_000_000), (US, 1_000), (NS, 1)] {
+        t = t.saturating_add(exact(v[i]).saturating_mul(unit));
+    }
+    t
 }
 
 /// IsValidDuration on ten integral doubles.
@@ -60,6 +59,10 @@ pub fn is_valid(v: &[f64; 10]) -> bool {
             }
             sign = s;
         }
+    }
+    // far beyond every limit (and beyond what the exact i128 total below can hold)
+    if v.iter().any(|x| x.abs() > 1e26) {
+        return false;
     }
     if v[Y].abs() >= 4_294_967_296.0 || v[MO].abs() >= 4_294_967_296.0 || v[W].abs() >= 4_294_967_296.0 {
         return false;
